@@ -57,6 +57,12 @@ func (vc *VC) buildReplayTerms() {
 			}
 			es := vc.sortOf(u.Elem())
 			ck := elemComp(u.Elem())
+			for _, ip := range vc.fn.Params {
+				if depth == 0 && vc.sortOf(ip.Type()) == "Int" && isIntType(ip.Type()) {
+					et := fmt.Sprintf("(select (select %s (s_arr %s)) (idx (s_off %s) %s))", vc.getCompIn(h, ck, "(Array Int (Array Int "+es+"))"), term, term, vc.vals[ip].S)
+					add(fmt.Sprintf("%s[@%s]", name, ip.Name()), et, u.Elem(), false, depth+1)
+				}
+			}
 			for i := 0; i < 3 && depth < 2; i++ {
 				et := fmt.Sprintf("(select (select %s (s_arr %s)) (idx (s_off %s) %d))", vc.getCompIn(h, ck, "(Array Int (Array Int "+es+"))"), term, term, i)
 				add(fmt.Sprintf("%s[%d]", name, i), et, u.Elem(), false, depth+1)
